@@ -656,10 +656,17 @@ def serviceFromNode (node : XNode) (urls : List (String × Option String)) : NM 
 
 /-! ### files and imports (reader.rs) -/
 
+mutual
+def allElemsNode (n : XNode) (anc : List XNode) : List (XNode × List XNode) :=
+  match n with
+  | .elem t a ns tx kids => (.elem t a ns tx kids, anc) :: allElemsOf kids (.elem t a ns tx kids :: anc)
+  | .other => []
 /-- every element of a forest in document order, each with its ancestors (nearest first) -/
-partial def allElemsOf (nodes : List XNode) (anc : List XNode) : List (XNode × List XNode) :=
-  nodes.flatMap fun n =>
-    if n.isElem then (n, anc) :: allElemsOf n.kids (n :: anc) else []
+def allElemsOf (nodes : List XNode) (anc : List XNode) : List (XNode × List XNode) :=
+  match nodes with
+  | [] => []
+  | n :: rest => allElemsNode n anc ++ allElemsOf rest anc
+end
 
 structure RS where
   processed : List String := []
